@@ -1,7 +1,22 @@
 """C10 — CBOR encoder and decoder round-trip every item sequence."""
-import struct
-from lib.core import Case
+import os, struct
+from lib.core import Case, GenError, write_if_changed, LEAN
+from lib import cbuild
 from lib import cbor_ref as ref
+from gen import cbor_gen, cfun
+
+
+def regen(ctx):
+    """Gen/CborConsts.lean: width decision, stored bytes and lengths of `_cbor_encode_uint*`, offsets of encoding.c, the
+    reservation in front of every libcbor encode call of cbor.c (which reserve function, how many bytes), loaders,
+    `claim_bytes`' test and the per-initial-byte table of `cbor_stream_decode`, re-derived from /repo's current source
+    (gen/cbor_gen.py); the bridge theorems `c10_gen_*` of Props/C10.lean are re-proved against it"""
+    try:
+        text, _ = cbor_gen.generate(cbuild.REPO, cbuild.config_include())
+    except cfun.GenError as e:
+        raise GenError(str(e))
+    write_if_changed(os.path.join(LEAN, "AwsVerif", "Gen", "CborConsts.lean"), text)
+
 
 ID = "C10"
 LEAN_MODULES = ["AwsVerif.Props.C10"]
@@ -10,7 +25,10 @@ HARNESS = dict(name="cbor", flavour="asan")
 P_DIFF_CONCRETE = True   # P lines carry only decoded (type, value, bytes) of encoder-written data, remaining length, consume results
 TIMEOUT = 300
 NOT_PROVED = []          # all of c10_roundtrip, c10_shortest_head, c10_float_smallest, c10_float_value, c10_consume_whole, c10_wellformed, c10_growth are proved
-TRUSTED = ["hand model lean/AwsVerif/Model/Cbor.lean of source/cbor.c + libcbor encoders/streaming/loaders (tied by this correspondence run only)",
+TRUSTED = ["hand model lean/AwsVerif/Model/Cbor.lean of source/cbor.c + libcbor encoders/streaming/loaders (tied by this correspondence run; "
+           "head encoders, offsets, reservations, loaders, claim_bytes and the decode switch additionally by bridge theorems to "
+           "Gen/CborConsts.lean, regenerated from the source on every run)",
+           "translator gen/cfun.py + gen/cbor_gen.py (clang-14 JSON AST -> Lean; buffer stores / result->read lifted or removed as documented there)",
            "independent RFC 8949 reader lib/cbor_ref.py (direct oracle)",
            "x86-64/gcc semantics of (float)double, (double)float for NaN (quieting) and of (int64_t)2^63 (INT64_MIN), confirmed by the W stream"]
 ASSUMPTIONS = ["string lengths and container counts < 2^64 (size_t); allocation never fails (aws_mem_acquire aborts otherwise)",
@@ -306,6 +324,68 @@ def case_growth_edge(rng, d=None, item=None):
     return Case(ops, {"kind": "growth"})
 
 
+TAG_VALUES = [0, 23, 24, 255, 256, 257, 1000, 55799, 65535, 65536, 65537, (1 << 32) - 1, 1 << 32, U64]
+
+
+def compound_ops(rng, depth=2):
+    """ops of one compound data item of a kind that is easy to get wrong when it sits in key position / inside a skipped item"""
+    r = rng.randrange(12)
+    inner = (lambda: compound_ops(rng, depth - 1)) if depth > 0 and rng.random() < 0.5 else (lambda: [scalar_op(rng, False)])
+    if r == 0:
+        return ["arr 0"]
+    if r == 1:
+        return ["map 0"]
+    if r == 2:
+        return ["indef_arr", "brk"]                    # empty indefinite containers
+    if r == 3:
+        return ["indef_map", "brk"]
+    if r == 4:
+        return [rng.choice(["indef_bytes", "indef_text"]), "brk"]
+    if r == 5:
+        t = rng.random() < 0.5
+        return (["indef_text" if t else "indef_bytes"] + [rand_str_op(rng, t, False) for _ in range(rng.randint(1, 3))] + ["brk"])
+    if r == 6:
+        return [f"tag {rng.choice(TAG_VALUES)}"] + inner()
+    if r == 7:
+        return [f"tag {rng.choice(TAG_VALUES)}", f"tag {rng.choice(TAG_VALUES)}"] + inner()
+    if r == 8:
+        k = rng.randint(1, 3)
+        return [f"arr {k}"] + [o for _ in range(k) for o in inner()]
+    if r == 9:
+        k = rng.randint(1, 2)
+        return [f"map {k}"] + [o for _ in range(2 * k) for o in inner()]
+    if r == 10:
+        k = rng.randint(1, 3)
+        return ["indef_arr"] + [o for _ in range(k) for o in inner()] + ["brk"]
+    k = rng.randint(1, 2)
+    return ["indef_map"] + [o for _ in range(2 * k) for o in inner()] + ["brk"]
+
+
+def case_map_keys(rng):
+    """maps (definite and indefinite) whose KEYS are compound items (arrays, tags, indefinite strings, maps, empty
+    indefinite containers), tags of every head width, followed by a sentinel: consume must stop exactly in front of it"""
+    ops = []
+    n = rng.randint(1, 4)
+    body = []
+    for _ in range(n):
+        body += compound_ops(rng)                                                    # key
+        body += compound_ops(rng) if rng.random() < 0.5 else [scalar_op(rng, False)]  # value
+    if rng.random() < 0.6:
+        ops += [f"map {n}"] + body
+    else:
+        ops += ["indef_map"] + body + ["brk"]
+    if rng.random() < 0.5:
+        ops = [f"tag {rng.choice(TAG_VALUES)}"] + ops
+    if rng.random() < 0.4:
+        ops = ["arr 2"] + ops + compound_ops(rng)
+    sentinel = rng.choice(["u 7", "null", "text 656e64", "f 3ff8000000000000"])
+    ops += [sentinel, "enc", "decode_all", "load"]
+    if rng.random() < 0.3:
+        ops.append("peek")
+    ops += ["consume", "rem", "consume", "rem", "consume"]
+    return Case(ops, {"kind": "mapkeys"})
+
+
 def case_bigstr(rng):
     n = rng.choice([65535, 65536, 65537, 131072])
     ops = [f"textr 61 {n}", "u 1", f"bytesr 00 {n - rng.randint(0, 2)}", "enc", "decode_all", "load", "consume", "consume", "consume", "rem"]
@@ -422,8 +502,11 @@ def gen_cases(rng, tier):
     for _ in range(120 if q else 2000):
         cases.append(case_strings(rng))
     for d in range(0, 11):
-        for item in [f"u {U64}", "f 3ff0000000000001", "f 3ff8000000000000", "text 616263"]:
+        for item in [f"u {U64}", "f 3ff0000000000001", "f 3ff8000000000000", "text 616263"] + \
+                (["indef_arr", "brk", "indef_text", "null", "bool 1"] if d < 3 else []):
             cases.append(case_growth_edge(rng, d, item))
+    for _ in range(400 if q else 12000):
+        cases.append(case_map_keys(rng))
     for _ in range(40 if q else 1500):
         cases.append(case_growth_edge(rng))
     for _ in range(3 if q else 40):
